@@ -191,7 +191,9 @@ Definition json_dec (b : base) (s : string) : res gval :=
       let (neg, digits) := match s with String "-" s' => (true, s') | _ => (false, s) end in
       match parse_N digits with
       | Some n => let z := if neg then - n else n in
-                  if String.eqb (print_Z n) digits && in_kind b z then Ok (GInt z) else Err
+                  (* strconv.ParseUint rejects a sign, also on "-0" *)
+                  if String.eqb (print_Z n) digits && in_kind b z &&
+                     negb (neg && match b with BUint _ => true | _ => false end) then Ok (GInt z) else Err
       | None => Err
       end
   | BBool => if String.eqb s "true" then Ok (GBool true)
